@@ -393,6 +393,8 @@ def program_cfgs(kinds=("ode", "statio", "nonstatio"), aux=True, max_iter=8):
                 cfg["border"] = False
         if aux and draw(st.booleans()):
             cfg["obs_gen"] = {"n": draw(st.integers(9, 12)), "key": draw(st.integers(0, 1000))}
+            # obs_batch_sharding selects solve()'s non-jitted python loop (device_put of the observation batch)
+            cfg["sharding"] = draw(st.booleans())
         return cfg
 
     return s()
